@@ -68,7 +68,7 @@ ASSUMPTIONS = ["no exception handlers inside MiniPy programs: an exception ends 
 DELGLOB_FIXED = os.environ.get("C01_DELGLOB_FIXED", "1")
 # after proposed_fixes/C01-items_loop_tuple_subclass_iter_ignored.diff (PyTuple_CheckExact in
 # __Pyx_unpack_tuple2) is applied to /repo flip this to "1"
-FX_TUPLE2 = os.environ.get("C01_FX_TUPLE2", "0")
+FX_TUPLE2 = os.environ.get("C01_FX_TUPLE2", "1")
 FUEL = 40000
 
 # ------------------------------------------------------------------------------------------------
